@@ -863,11 +863,26 @@ func (c *syntaxLoader) convertPart(p ast.RhsPart, nonterm *syntax.Nonterm, under
 			// Note: the list below can include entities from a different alternative but
 			// they'll be automatically filtered later on.
 			args.Names = make(map[string][]int)
-			for k, v := range rhs.names {
-				if !c.aliasOptSuffix && len(k) > len(c.optSuffix) && strings.HasSuffix(k, c.optSuffix) {
-					k = strings.TrimSuffix(k, c.optSuffix)
+			// Names that lose their opt suffix can collide with an existing name (`a` and `aopt` in one
+			// rule): write them first, in sorted order, so that the exact name always wins and the result
+			// does not depend on the map iteration order.
+			keys := make([]string, 0, len(rhs.names))
+			for k := range rhs.names {
+				keys = append(keys, k)
+			}
+			sort.Strings(keys)
+			for _, trimmedPass := range []bool{true, false} {
+				for _, k := range keys {
+					trimmed := !c.aliasOptSuffix && len(k) > len(c.optSuffix) && strings.HasSuffix(k, c.optSuffix)
+					if trimmed != trimmedPass {
+						continue
+					}
+					name := k
+					if trimmed {
+						name = strings.TrimSuffix(k, c.optSuffix)
+					}
+					args.Names[name] = rhs.names[k]
 				}
-				args.Names[k] = v
 			}
 		}
 		if len(rhs.argRefs) > 0 {
